@@ -332,6 +332,14 @@ fn check_table(
             }
             (None, Some((disc, ident))) => {
                 st.outcome("extension");
+                // a symbol the registry knows by name must carry the registry's code
+                if let Some(reg_code) = reg::lookup_name(table, ident) {
+                    st.violate(
+                        format!("{}:wrong-code-for-name", what),
+                        format!("{} symbol {} has code {:#06x} in the library but {:#06x} in the registry", what, ident, code, reg_code),
+                        case.clone(),
+                    );
+                }
                 if *disc != code {
                     st.violate(format!("{}:alias", what), format!("unregistered {} code {:#06x} decodes to {} ({:#06x})", what, code, ident, disc), case);
                 }
